@@ -41,7 +41,10 @@ class Filter {
     if (variant_ == true)  // "true" means "allow recursively"
       return *this;
     JsonVariantConst member = variant_[key];
-    return Filter(member.isNull() ? variant_["*"] : member);
+    // "*" stands for any other key of an object, not for an array index
+    if (member.isNull() && !detail::is_integral<TKey>::value)
+      member = variant_["*"];
+    return Filter(member);
   }
 
  private:
